@@ -16,4 +16,10 @@ def extract(repo):
     rhs = [re.sub(r"\s+", "", m.group(1)) for m in re.finditer(r"self\.retire_prior_to\s*=\s*([^;]+);", src)]
     o.define("retirePriorToAssignments", "List String", "[" + ", ".join('"' + r.replace('"', "'") + '"' for r in rhs) + "]",
              f"{SRC}: right-hand sides of every `self.retire_prior_to = ..;` (non-test code), in source order")
+    # the Retire Prior To field of the NEW_CONNECTION_ID frame written by on_transmit (repo commit f182fcd caps it at the
+    # sequence number of the frame; before, the registry's value was written as it is)
+    m = re.search(r"frame::NewConnectionId\s*\{\s*sequence_number:\s*id_info\.sequence_number\.into\(\),\s*retire_prior_to:\s*([^,]+),", src)
+    form = re.sub(r"\s+", "", m.group(1)) if m else "?"
+    o.define("frameRetirePriorTo", "String", '"' + form + '"',
+             f"{SRC} on_transmit: the expression written into the retire_prior_to field of NEW_CONNECTION_ID")
     return o
